@@ -566,6 +566,20 @@ def check_api(case):
     if s1 != s2:
       labels.add('hooks-different-spelling')
 
+  else:
+    # a macro referenced through a *partial* spelling of the macro configurable (`@M/macro()`
+    # instead of `@M/gin.macro()`): finalize validates macro references by looking their
+    # bindings up, which must treat every spelling as the same key
+    spelled = ['macro', 'gin.macro'][len(case['ops']) % 2]
+    gin.parse_config(f'c08M = 7\nzzcons.consumer.x = @c08M/{spelled}()')
+    try:
+      gin.finalize()
+    except Exception as e:  # pylint: disable=broad-except
+      raise Violation('finalize-rejected-bound-macro',
+                      f'c08M is bound and evaluated (@c08M/{spelled}()): {type(e).__name__}: {e}')
+    require(cons() == 7, 'macro-through-partial-spelling', f'@c08M/{spelled}()')
+    labels.add('macro-reference-spelled-' + spelled)
+
   multi = any(len({sp for _, sp in v}) >= 2 and len({a for a, _ in v}) >= 2
               for v in used.values())
   nt = multi or 'late-registration' in labels
